@@ -743,7 +743,7 @@ Print Assumptions C14_columns_example.
    C14_empty_statements_same_lua  the whole pipeline gives the same result for `ast` and `drop_empties ast`;
    C14_parens_and_empties_same_lua  two ASTs with equal normal forms drop_empties (strip_parens _) have the same pipeline
                       result (every verdict, every byte);
-   C14_layout_resolve / C14_layout_same_lua  the relational form with the columns (C14_columns_*), now modulo
+   C14_layout_resolve / C14_layout_same_lua  the relational form with the columns (the C14_columns theorems), now modulo
                       EmptyStatements too: same_modulo_layout a1 a2 := the ASTs are equal after removing Parenthesis nodes
                       and EmptyStatements and forgetting the columns and last line of every span. *)
 From Sylt Require Resolve.Empties Resolve.EmptiesProofs.
